@@ -456,6 +456,34 @@ def r3_monotone_test(ctx):
             f"np.argmax({b_} ** 2 + {a_} ** 2)")
     ctx.check(ok, ft, "turning point = farthest point in normalised "
               "coordinates", "turning point is not the argmax of x^2 + y^2")
+    # "normalised": the index does not depend on unit or offset of either
+    # force axis (scale types)
+    from ..scale import INV, S, Interp, first_top, is_inv
+    ps = [a.arg for a in ft.args.args]
+    if len(ps) < 3:
+        raise Undecided("find_turning_point signature changed")
+    # (the tip-position axis keeps its unit in the degenerate case
+    # x.min() == 0 by design of the guard; only the force axis is decided)
+    for axis, other in ((ps[1], ps[0]),):
+        it = Interp(ft, {axis: S(1, 1), other: INV, ps[2]: INV}, shift=True)
+        rets_ = it.run()
+        for e, node in it.errors:
+            ctx.fail(node, f"turning point vs. {axis}: {norm(node)[:50]}",
+                     f"the turning point depends on the unit or a constant "
+                     f"offset of `{axis}`: {e.why} (the segment switch moves "
+                     f"when e.g. the force offset has not been removed yet)")
+        if it.errors:
+            continue
+        res = None
+        from .. import scale as _sc
+        for v, _ in rets_:
+            res = _sc.join(res, v)
+        if res is None or first_top(res) is not None or it.tops:
+            raise Undecided(f"find_turning_point: cannot type the result "
+                            f"for `{axis}`")
+        ctx.check(is_inv(res), ft, f"turning point invariant under scaling "
+                  f"and offset of `{axis}`",
+                  f"the turning point is a {res} quantity of `{axis}`")
 
 
 RULES = [
